@@ -653,6 +653,9 @@ def dev_menu(valid):
     m += [("field-out-of-range", "00:75:00"), ("field-out-of-range", "00:00:75"), ("field-out-of-range", "00:61:61.5")]
   if valid.startswith("#") or valid.startswith("rgb") or valid in NAMED:
     m += [("component-out-of-range", "rgb(300,0,0)"), ("component-out-of-range", "rgba(1,2,3,400)")]
+  if any(c in "0123456789" for c in valid) and not valid.startswith("#"):
+    # TTML digits are "0".."9" only: the same value spelt with ARABIC-INDIC digits is malformed
+    m.append(("non-ascii-digits", valid.translate({ord("0") + i: 0x0660 + i for i in range(10)})))
   nu = _UNITS.sub("", valid)
   if nu != valid:
     m.append(("missing-unit", nu))
